@@ -176,6 +176,29 @@ def openDir (st : Stack) (m : Mode) (k : DirKeys) (ver : Nat) (who : String) (st
     | .dtlcp => pure reasm.done.reverse
   pure ⟨hs, app, alerts, seen⟩
 
+/-- when the first protected record of a direction does not open, try the classic symmetric
+mistakes and name the one that explains it -/
+def explainKeys (st : Stack) (sp : SuiteParams) (master crnd srnd : Bytes) (r : Role) (first : Option (Nat × WireRec)) : String :=
+  match first with
+  | none => ""
+  | some (i, w) =>
+    let epoch := match st with | .tlcp => 0 | .dtlcp => 1
+    let kb := keyBlock sm sp master crnd srnd
+    let kbSeed := keyBlock sm sp master srnd crnd
+    let kbLabel := cut sp (prf sm master labelMaster (srnd ++ crnd) (keyBlockLen sp))
+    let own := writeKeys kb r
+    let other := writeKeys kb (peer r)
+    let alts : List (String × DirKeys) :=
+      [("it opens under the PEER's write keys: client and server keys are exchanged", other),
+       ("it opens when the key block is expanded with seed client_random+server_random", writeKeys kbSeed r),
+       ("it opens when the key block is expanded with the label 'master secret'", writeKeys kbLabel r),
+       ("it opens with the peer's write_key slice (key slices cut in another order)", { own with key := other.key }),
+       ("it opens with the peer's MAC slice (MAC slices cut in another order)", { own with mac := other.mac }),
+       ("it opens with the peer's write IV slice (IV slices cut in another order)", { own with iv := other.iv })]
+    match alts.find? (fun a => match openBody sm sp.mode a.2 st w.p.typ w.p.ver epoch i w.p.body with | .ok _ => true | .error _ => false) with
+    | some (why, _) => "; " ++ why
+    | none => ""
+
 def flat (ms : List Msg) : Bytes := ms.foldl (fun acc m => acc ++ m.full) []
 
 structure Derived where
@@ -224,8 +247,12 @@ def check (mst : MStack) (st : Stack) (suiteId : Nat) (master smaster pre c2s s2
   let resumed := splain.length == 1
   let startC := cv.plain.length        -- next message_seq of each side (DTLCP)
   let startS := sv.plain.length
-  let co ← openDir st sp.mode (writeKeys kb .client) 0x0101 "client->server" startC cv.prot
-  let so ← openDir st sp.mode (writeKeys kb .server) 0x0101 "server->client" startS sv.prot
+  let co ← match openDir st sp.mode (writeKeys kb .client) 0x0101 "client->server" startC cv.prot with
+    | .ok o => pure o
+    | .error (t, why) => throw (t, why ++ (if t == "record-open" then explainKeys st sp master chello.random shello.random .client cv.prot.head? else ""))
+  let so ← match openDir st sp.mode (writeKeys kb .server) 0x0101 "server->client" startS sv.prot with
+    | .ok o => pure o
+    | .error (t, why) => throw (t, why ++ (if t == "record-open" then explainKeys st sp master chello.random shello.random .server sv.prot.head? else ""))
   let cfinMsg ← match co.hs with
     | [m] => if m.typ == 20 && m.body.length == 12 then pure m else throw ("hs-shape", "client's protected handshake message is not a 12-byte Finished")
     | l => throw ("hs-shape", s!"client sent {l.length} protected handshake messages, expected one Finished")
